@@ -699,3 +699,19 @@ package controller
 //@   ensures r != nil
 //@   assert @NewFilteredPodsLister#1 [C12,C14] isclosure(#arg1, "controller.NewPodDefaultFilterFunc$1")
 //@   assert @NewFilteredNodesLister#1 [C12,C14] isclosure(#arg1, "controller.NewNodeLabelFilterFunc$1", nodeGroup.LabelKey, nodeGroup.LabelValue)
+
+// ---------------------------------------------------------------- controller.go: NewController (the invariant is established)
+
+// NewClient starts informers and a goroutine: outside the subset, used through this assumed contract
+// (a lister per configured group, with both halves present).
+//@ assume func NewClient(k8sClient, nodegroups, stopCache) (cl, err)
+//@   ensures err == nil ==> cl != nil && fresh(cl) && cl.Listers != nil && (forall i :: 0 <= i && i < len(nodegroups) ==> has(cl.Listers, nodegroups[i].Name) && cl.Listers[nodegroups[i].Name] != nil && cl.Listers[nodegroups[i].Name].Pods != nil && cl.Listers[nodegroups[i].Name].Nodes != nil)
+// C01/C02/C12/C20 ("after any restart"): a controller that was constructed satisfies the invariant every scan
+// starts from; the configuration handed in is not written (min/max discovery goes into the state's own copy).
+//@ func NewController(opts, stopChan) (c, err)
+//@   requires opts.CloudProviderBuilder != nil && (forall i :: 0 <= i && i < len(opts.NodeGroups) ==> durCacheOK(elemref(opts.NodeGroups, i)))
+//@   modifies nBuildFail
+//@   ensures err == nil ==> c != nil && fresh(c) && ctlInv(c)
+//@ loop #0
+//@   modifies mapof(nodegroupMap)
+//@   invariant forall j :: 0 <= j && j < #i ==> has(nodegroupMap, opts.NodeGroups[j].Name) && birth(nodegroupMap[opts.NodeGroups[j].Name]) < now && groupInv(nodegroupMap[opts.NodeGroups[j].Name])
